@@ -62,20 +62,28 @@ example :
     (tfRun (TextField.insertString TextField.new [0, 1])
       [.key bs, .key ce, .key (ty 7), .key cb, .key (ty 8)]).value = [0, 8, 7] := by decide
 
-/-- `cursor_column` (TextField): `Draw` puts the cursor in the column equal to the display width of
-the graphemes before the cursor, computed in `uint16` like every vxfw column. -/
-theorem textfield_cursor_column {G : Type} (width : G → Nat) (tf : TextField.TF G) :
-    TextField.drawCursorCol width tf = UInt16.ofNat (widthSum width (tf.value.take tf.cursor)) :=
-  drawCursorCol_eq width tf
+/-- `cursor_column` (TextField): `Draw` puts the cursor in the column equal to the display width of the
+graphemes before the cursor — the display width of a grapheme being the total width of the
+characters it is drawn as (`chars`: one character, except a tab, which `vaxis.Characters` draws as 8
+blanks; true of tabs since the F417 fix) —, computed in `uint16` like every vxfw column. -/
+theorem textfield_cursor_column {G : Type} (chars : G → List Nat) (tf : TextField.TF G) :
+    TextField.drawCursorCol chars tf = UInt16.ofNat (widthSum (cellWidth chars) (tf.value.take tf.cursor)) :=
+  drawCursorCol_eq chars tf
 
 /-- `cursor_column` (TextField) in natural numbers: while the text before the cursor is narrower
 than 65536 columns (in particular while the text fits any widget) the drawn cursor column *is* the
 display width of the ideal editor's text before its cursor. -/
-theorem textfield_cursor_column_nat {G : Type} (width : G → Nat) (tf : TextField.TF G)
-    (hfit : widthSum width ((abs tf).text.take (abs tf).cursor) < 65536) :
-    (TextField.drawCursorCol width tf).toNat = widthSum width ((abs tf).text.take (abs tf).cursor) := by
+theorem textfield_cursor_column_nat {G : Type} (chars : G → List Nat) (tf : TextField.TF G)
+    (hfit : widthSum (cellWidth chars) ((abs tf).text.take (abs tf).cursor) < 65536) :
+    (TextField.drawCursorCol chars tf).toNat = widthSum (cellWidth chars) ((abs tf).text.take (abs tf).cursor) := by
   rw [drawCursorCol_eq]
   exact UInt16.toNat_ofNat_of_lt' hfit
+
+/-- Non-vacuity / the F417 scenario on the fixed code: "a", tab, "b" with the cursor behind the tab
+(grapheme index 2) is drawn with the cursor in column 9 (the tab is 8 blanks). -/
+example :
+    (TextField.drawCursorCol (fun g : Nat => if g = 9 then [1, 1, 1, 1, 1, 1, 1, 1] else [1]) ⟨[0, 9, 1], 2, 3⟩).toNat = 9 := by
+  decide
 
 /-- `textinput_refines` (one step): from a state with the cursor within the content and a
 non-negative scroll offset, every call of the textinput API (`Update` with any event, `SetContent`,
@@ -210,10 +218,11 @@ theorem textfield_callbacks_exact_clustered {A : Type} [DecidableEq A] (cl : Lis
 
 /-- `cursor_column` over merging graphemes: the drawn cursor column is the display width of the
 graphemes before the cursor. -/
-theorem textfield_cursor_column_clustered {A : Type} (cl : List A → List (List A)) (width : List A → Nat)
+theorem textfield_cursor_column_clustered {A : Type} (cl : List A → List (List A)) (chars : List A → List Nat)
     (tf : TextFieldCl.TF A) :
-    TextFieldCl.drawCursorCol cl width tf = UInt16.ofNat (widthSum width ((absC cl tf).text.take (absC cl tf).cursor)) :=
-  drawCursorCol_eq width _
+    TextFieldCl.drawCursorCol cl chars tf =
+      UInt16.ofNat (widthSum (cellWidth chars) ((absC cl tf).text.take (absC cl tf).cursor)) :=
+  drawCursorCol_eq chars _
 
 /-- The F217 scenario on the fixed code, with a segmentation in which atom 9 joins whatever is
 before it: "ab", cursor to 1, type the mark, type "x" gives a+mark, x, b with the cursor behind x
